@@ -3,6 +3,8 @@ CONSTANTS
   Ops = {"Login", "NewProxy", "Ping", "NewWorkConn", "NewUserConn"}
   Outcomes = {"same", "changed", "reject", "http500", "reset", "badjson", "emptybody"}
   MaxPlugins = 3
+  CloseOp = "CloseProxy"
+  Deviations = {}
 INVARIANTS NoMismatch
 CONSTRAINT TConstraint
 POSTCONDITION TAccepted
